@@ -299,7 +299,15 @@ func permsOf(n int, r *prng.R) [][]int {
 		rev[i] = n - 1 - i
 	}
 	out = append(out, rev)
-	for k := 1; k < n; k++ { // rotations: what the Go runtime does for small maps
+	// rotations: what the Go runtime does for small maps (all of them up to 8 keys, a handful beyond)
+	ks := []int{}
+	for k := 1; k < n && k < 8; k++ {
+		ks = append(ks, k)
+	}
+	if n > 8 {
+		ks = append(ks, n/2, n-1)
+	}
+	for _, k := range ks {
 		rot := make([]int, n)
 		for i := range rot {
 			rot[i] = (i + k) % n
@@ -342,6 +350,16 @@ func c19Sources(cfg Config, lim c19Limits) ([]ListSource, error) {
 			src.Ops = genOps(lr)
 		}
 		srcs = append(srcs, src)
+	}
+	// edge sizes: 0 cues, 1 cue, more than 256 styles
+	for i, dims := range [][3]int{{6, 4, 0}, {6, 4, 1}, {300, 8, 12}} {
+		l := corpus.GenListSized(root.Derive("c19-edge", i), 200000+i, dims[0], dims[1], dims[2])
+		if dims[2] <= 1 {
+			if len(l.Items) > dims[2] {
+				l.Items = l.Items[:dims[2]]
+			}
+		}
+		srcs = append(srcs, ListSource{Spec: &l})
 	}
 	// one very long list (more than 512 cues): size thresholds in writers
 	{
@@ -575,10 +593,12 @@ func runChildren(cfg Config, bin string, req plainReq, procs int) ([]plainResp, 
 	var out []plainResp
 	// "in the same process or in another": the other processes also differ in what a process inherits from its
 	// environment (time zone, locale); when the zone database is missing the TZ values simply mean UTC
-	envs := [][]string{{"TZ=UTC"}, {"TZ=Pacific/Kiritimati", "LANG=fr_FR.UTF-8", "LC_ALL=fr_FR.UTF-8"}, {"TZ=Pacific/Honolulu", "LANG=C"}}
+	envs := [][]string{{"TZ=UTC", "GOMAXPROCS=1"}, {"TZ=Pacific/Kiritimati", "LANG=fr_FR.UTF-8", "LC_ALL=fr_FR.UTF-8", "GOMAXPROCS=8"}, {"TZ=Pacific/Honolulu", "LANG=C", "GOMAXPROCS=3", "HOME=/nonexistent", "TMPDIR=" + dir}}
+	dirs := []string{"", "/", dir} // current directory
 	for p := 0; p < procs; p++ {
 		cmd := exec.Command(bin, "-mode", "child", "-child", reqPath)
 		cmd.Env = append(os.Environ(), envs[p%len(envs)]...)
+		cmd.Dir = dirs[p%len(dirs)]
 		cmd.Stderr = os.Stderr
 		b, err := cmd.Output()
 		if err != nil {
